@@ -49,11 +49,15 @@ CONFIG = dict(
                  "invalid keywords make the client close the connection before anything is flushed; the model says so under the assumption that fewer than 4096 bytes were pending (bufio)",
                  "commands are issued one after the other (no pipelining of the probe with other literal-bearing commands; concurrent use is C13)"],
     leanchecker=True,
-    level_text="proof: for every capability set, every enabled set and every string, the mirrored Encoder.String / commandEncoder.Literal "
-               "decision emits {n+} only where RFC 7888 allows it and quotes a string only when it has no NUL/CR/LF and 8-bit bytes only "
-               "with IMAP4rev2 or UTF8=ACCEPT (nonsync_legal, append_nonsync_legal, quoted_legal); CapSet.Has is the RFC implication table "
-               "(caps_has); SEARCH names CHARSET UTF-8 exactly when required (charset_rule). The mirror is tied to imapclient EXHAUSTIVELY over "
-               "the decision table on every run, and an independent byte scanner written from the RFC grammar judges the bytes the real "
-               "client wrote, including their order relative to the server's continuation requests and refusals",
-    level_note="Trusted: Lean kernel; harness/driver; the scripted server's timing window. The list of proved theorems is at the top of lean/GoImap/Props/C18.lean.",
+    level_text="proof: END TO END (conforms) — for every capability set, enabled set, modelled command, argument strings and every pattern "
+               "of server answers (+ / tagged NO / tagged BAD to each synchronising literal), the bytes the mirrored client writes and the "
+               "moments it writes them are accepted by an independent byte scanner written from the RFC grammar: one well-formed command (or "
+               "one that stops at a refused literal), {n+} only where RFC 7888 allows it, quoted strings without NUL/CR/LF and 8-bit only with "
+               "IMAP4rev2 or UTF8=ACCEPT, the payload of {n} only after the continuation request and nothing after a refusal "
+               "(payload_after_cont, nothing_after_refusal), the command always gets its + and leaves no continuation request behind (no_hang, "
+               "no_stale_request); plus the per-string decision theorems (nonsync_legal, append_nonsync_legal, quoted_legal), CapSet.Has = RFC "
+               "implication table (caps_has) and the SEARCH CHARSET rule (charset_rule). The mirror is tied to imapclient EXHAUSTIVELY over the "
+               "decision table on every run, and the same scanner judges the bytes the real client wrote, including their order relative to "
+               "the server's continuation requests and refusals",
+    level_note="Trusted: Lean kernel; harness/driver; the scripted server's timing window. Proved/validated-only split: top of lean/GoImap/Props/C18.lean (validated by the oracle only: the two SEARCH CHARSET clauses on scanned tokens, commands the encoder aborts on an invalid flag, mailbox names that are not valid UTF-8).",
 )
